@@ -134,8 +134,9 @@ class _BadiYearMonthDayCalculator(_YearMonthDayCalculator):
         next_month_num = this_month + months
 
         if next_month_num > self.__MONTHS_IN_YEAR:
-            next_year = this_year + _towards_zero_division(next_month_num, self.__MONTHS_IN_YEAR)
-            next_month_num = next_month_num % self.__MONTHS_IN_YEAR
+            # Months are numbered 1-19, so work zero-based: a multiple of 19 is month 19, not month 0 of the next year.
+            next_year = this_year + (next_month_num - 1) // self.__MONTHS_IN_YEAR
+            next_month_num = (next_month_num - 1) % self.__MONTHS_IN_YEAR + 1
         elif next_month_num < 1:
             next_month_num = self.__MONTHS_IN_YEAR - next_month_num
             next_year = this_year - _towards_zero_division(next_month_num, self.__MONTHS_IN_YEAR)
